@@ -76,7 +76,9 @@ MkCase(w, amt, inc, mc, mo, nch, ua, src, fl) ==
   [fam |-> w.fam, outs |-> w.outs, amt |-> amt, incfee |-> inc, height |-> H0, minconf |-> mc,
    maxouts |-> mo, nchange |-> nch, useall |-> ua, src |-> src, flow |-> fl]
 
-FlowInc == {<<"send", FALSE>>, <<"send", TRUE>>, <<"late", FALSE>>, <<"late", TRUE>>, <<"invoice", FALSE>>}
+\* (an invoice's amount is the issuer's: the payer's amount-includes-fee option cannot change what the issuer's
+\*  output holds, so the option must be without effect there - the case is generated, the contract says amt = c.amt)
+FlowInc == {<<"send", FALSE>>, <<"send", TRUE>>, <<"late", FALSE>>, <<"late", TRUE>>, <<"invoice", FALSE>>, <<"invoice", TRUE>>}
 
 NextA == /\ c.fam \in {"arith", "small"}
          /\ \E ua \in BOOLEAN, nch \in 0..3, mo \in MaxOutsSet, fi \in FlowInc :
@@ -127,7 +129,7 @@ WideCase(k) ==
       d    == (Rn(k, 61) % 15) - 2
       base == SumFirst(vals, j) - (IF inc /\ fl = "send" THEN 0 ELSE Fee(j, o, 1)) - d
       amt  == IF Rn(k, 62) % 25 = 0 THEN TOP - (Rn(k, 63) % 60) ELSE Max2(0, base)
-  IN [fam |-> "wide", outs |-> outs, amt |-> amt, incfee |-> (inc /\ fl # "invoice"), height |-> H0, minconf |-> mc,
+  IN [fam |-> "wide", outs |-> outs, amt |-> amt, incfee |-> inc, height |-> H0, minconf |-> mc,
       maxouts |-> mo, nchange |-> nch, useall |-> ua, src |-> src, flow |-> fl]
 WideCases == {WideCase(k) : k \in 1..NWide}
 
